@@ -272,7 +272,7 @@ Print Assumptions C17_updates_atomic.
 (* a revoked password no longer works: after an accepted password change of
    user u only a password that the new stored password matches passes *)
 Theorem C17_revoked_password : forall H e g u pw p d d',
-  g <> "" -> e_writable e = true ->
+  g <> "" -> e_writable e = true -> e_store_ok e = true ->
   file_lookup e g = Some d -> set_password d u false pw = Some d' ->
   let e' := fst (do_set_password e g u false pw) in
   global_admin_match H e' u p = Some false ->
@@ -283,7 +283,7 @@ Print Assumptions C17_revoked_password.
 
 (* revoked permissions no longer work *)
 Theorem C17_revoked_permission : forall H e g u nu p d d',
-  g <> "" -> e_writable e = true ->
+  g <> "" -> e_writable e = true -> e_store_ok e = true ->
   file_lookup e g = Some d -> update_user d u false nu = Some d' ->
   mem "admin" (perm_list (Some d') (u_perms nu)) = false ->
   let e' := set_groups e (assoc_set (e_groups e) (clean_name g) d') in
@@ -311,7 +311,7 @@ Definition ex_g2 : description :=
      d_wildcard := None; d_keys := [] |}.
 Definition ex_env : env :=
   {| e_conf := [("root", Build_user_desc (plain "SECRET-root") (PNamed "admin"))];
-     e_writable := true;
+     e_writable := true; e_store_ok := true;
      e_groups := [("g1", ex_g1); ("g2", ex_g2)];
      e_tokens := [Build_stoken "t1" "g1" false (Some "x") ["admin"] true;
                   Build_stoken "t2" "g2" false (Some "x") ["admin"] true] |}.
@@ -389,7 +389,7 @@ Example C17_example_wildcard_password_user :
               d_users := [("w", Build_user_desc (Build_password "wildcard" None "" "" 0) (PNamed "present"));
                           ("e", Build_user_desc (plain "") (PNamed "present"))];
               d_wildcard := None; d_keys := [] |} in
-  let e := {| e_conf := []; e_writable := true; e_groups := [("g", d)];
+  let e := {| e_conf := []; e_writable := true; e_store_ok := true; e_groups := [("g", d)];
               e_tokens := [Build_stoken "t2" "g2" false (Some "x") ["admin"] true] |} in
   let put u c := handle exH e (ex_req "PUT" ("/galene-api/v0/.groups/g/.users/" ++ u ++ "/.password") c
                         (Build_body_in CTJson (PPassword (plain "taken")))) in
